@@ -141,7 +141,43 @@ pub fn run(tier: Tier) -> i32 {
                     ctx.sample(json!({"scope": name, "chunks": chunks_str(&cs), "stream_len": w.bytes.len()}));
                 }
             });
-            ctx.scope_done(&name, cases.load(Ordering::Relaxed), t0, "5 trailers x reader kinds");
+            // chunks at the format's size limits (compressed size 65536 and 65535, uncompressed 65536 / 2 MiB), embedded
+            let mut extremes: Vec<Vec<Chunk>> = Vec::new();
+            for want in [65536usize, 65535] {
+                if let Some(q) = super::c02::literal_program_with_packed_size(want) {
+                    extremes.push(vec![Chunk::C { class: 3, props: (0, 0, 0), prog: q }]);
+                }
+            }
+            extremes.push(vec![Chunk::U { reset: true, data: (0..65536u32).map(|i| (i * 7) as u8).collect() }, Chunk::C { class: 2, props: (3, 0, 2), prog: vec![Sym::M(65536, 20), Sym::L(1)] }]);
+            {
+                let mut p = vec![Sym::L(0x55)];
+                p.extend(std::iter::repeat(Sym::M(1, 273)).take(7681));
+                p.push(Sym::M(1, 238));
+                extremes.push(vec![Chunk::C { class: 3, props: (3, 0, 2), prog: p }]);
+            }
+            par_for(extremes.len() as u64, |i| {
+                let cs = &extremes[i as usize];
+                let w = lzma2::write(cs);
+                if w.ill.is_some() {
+                    return;
+                }
+                for (tn, tr) in [("none", vec![]), ("00", vec![0u8]), ("ff x 20", vec![0xFFu8; 20])] {
+                    let mut input = w.bytes.clone();
+                    input.extend_from_slice(&tr);
+                    for rd in [Rd::default(), Rd { bufreader: 8192, ..Rd::default() }, Rd { period: 4096, ..Rd::default() }, Rd { cuts: vec![3, 70], ..Rd::default() }] {
+                        let case = Case::Dec { fmt: Fmt::Lzma2, opts: Opts::default(), input: Hex(input.clone()), rd, sk: Sk::default() };
+                        let o = run_case(&case);
+                        cases.fetch_add(1, Ordering::Relaxed);
+                        ctx.eval(1);
+                        ctx.nontriv(1);
+                        if !(o.v.is_ok() && o.out.0 == w.expect && o.consumed == w.bytes.len()) {
+                            ctx.violation(&case, &format!("LZMA2 stream of {} bytes with a chunk at the format's size limit + trailer {}: Ok, {} output bytes and the reader left just after the end byte (offset {})", w.bytes.len(), tn, w.expect.len(), w.bytes.len()), &o, None);
+                            return;
+                        }
+                    }
+                }
+            });
+            ctx.scope_done(&name, cases.load(Ordering::Relaxed), t0, "5 trailers x reader kinds; chunks at the size limits");
         }
     }
     // ------------------------------------------------------------ raw decoder reused on members that follow each other in one container
@@ -257,6 +293,21 @@ pub fn run(tier: Tier) -> i32 {
                         items.push((Fmt::Xz, xz::build(&f).0, format!("xz check {} blocks {}", check, nb)));
                     }
                 }
+            }
+            // xz blocks announcing dictionaries of 6 KiB / 12 KiB (odd property bytes) with copies from the top third of them
+            for (prop, dict) in [(1u8, 6144u32), (3, 12288), (2, 8192)] {
+                let mut prog: Vec<Sym> = (0..400u32).map(|k| Sym::L((k * 7 + k / 11 + prop as u32) as u8)).collect();
+                let mut produced = 400u32;
+                let mut k = 0u32;
+                while produced < dict + 300 {
+                    prog.push(Sym::M(1 + (k * 53) % 390, 270));
+                    produced += 270;
+                    k += 1;
+                }
+                prog.extend([Sym::M(dict, 9), Sym::L(0x31), Sym::M(dict - 1, 4), Sym::M(dict - dict / 4, 30)]);
+                let w = lzma2::write(&[Chunk::C { class: 3, props: (3, 0, 2), prog }]);
+                let f = xz::XzFile { check_id: 1, blocks: vec![xz::Block { payload: w.bytes.clone(), plain: w.expect.clone(), o_filters: Some(vec![(xz::mbi(0x21), xz::mbi(1), vec![prop])]), ..Default::default() }], ..Default::default() };
+                items.push((Fmt::Xz, xz::build(&f).0, format!("xz block announcing a {}-byte dictionary with copies at distances up to it", dict)));
             }
             // marker-terminated stream whose header carries a real size, decoded with ReadHeaderButUseProvided(None):
             // no size is in effect, so the marker is the end and nothing may follow it
